@@ -162,13 +162,15 @@ def _run_tv_one(args):
         out = (ex.stdout or b"").decode("utf-8", "replace") if isinstance(ex.stdout, bytes) else (ex.stdout or "")
         timed_out = True
     shutil.rmtree(md, ignore_errors=True)
-    r = {"file": path, "wall_s": round(time.time() - t0, 1), "accepted": False, "rejected_at": None, "mismatch": [], "states": 0, "timed_out": timed_out, "tool_error": None}
+    r = {"file": path, "wall_s": round(time.time() - t0, 1), "accepted": False, "rejected_at": None, "mismatch": [], "states": 0, "timed_out": timed_out, "tool_error": None, "drift": []}
     for line in out.splitlines():
         m = _RE_STATES.match(line)
         if m:
             r["states"] = int(m.group(2))
         if line.startswith('"MISMATCH ') or line.startswith("MISMATCH "):
             r["mismatch"].append(line.strip().strip('"'))
+        if line.startswith('"DRIFT ') or line.startswith("DRIFT "):
+            r["drift"].append(line.strip().strip('"')[:300])
         mm = re.search(r"REJECTED-AT (\d+)", line)
         if mm:
             r["rejected_at"] = int(mm.group(1))
@@ -254,7 +256,12 @@ class Verdict:
         st = sum(r["states"] for r in results)
         self.cov["states"] += st
         self.cov["transitions"] += st
-        self.cov["tv_runs"].append({"label": label, "files": len(results), "states": st, "rejected": sum(1 for r in results if not r["accepted"])})
+        nd = sum(len(r.get("drift", [])) for r in results)
+        self.cov["spec_drift"] += nd
+        if nd:
+            self.cov.setdefault("spec_drift_samples", []).extend([d for r in results for d in r.get("drift", [])][:3])
+            log("SPEC-DRIFT: %d events where the implementation-shaped model L2 and the engine's reported progress differ (not a verdict)" % nd)
+        self.cov["tv_runs"].append({"label": label, "files": len(results), "states": st, "rejected": sum(1 for r in results if not r["accepted"]), "drift": nd})
 
     def violation(self, what, replay_obj):
         os.makedirs(os.path.join(REPLAYS, self.pid), exist_ok=True)
